@@ -197,6 +197,14 @@ def printGroups (seen : List Rid) : List (List LogEntry) → List String
     let (ss, seen) := printGroup seen (groupOrder g)
     (if ss.isEmpty then "-" else ";".intercalate ss) :: printGroups seen gs
 
+/-- `m<max timeouts>[i<initial transaction id>]` (the initial id is a harness-only knob: it puts
+    a run next to the 65535 -> 0 wrap without 65536 preceding requests) -/
+def parseLimitTok (m : String) : Nat × Nat :=
+  match (sdrop m 1).splitOn "i" with
+  | [a, b] => (natOf a, natOf b % 65536)
+  | [a] => (natOf a, 0)
+  | _ => (0, 0)
+
 def parseCoins (tok : String) : List Bool := (sdrop tok 1).toList.map (· == '1')
 
 /-- result of a `cl` case under the given scheduler coins, together with the number of coins it
@@ -209,13 +217,14 @@ def runClWith (tok : List String) (coins : List Bool) : String × Nat × Nat :=
       | some steps =>
         -- coins are padded with the default so that consumption can be counted
         let padded := coins ++ List.replicate 64 true
-        let (cap, maxTo, dec) := (natOf (sdrop q 1), natOf (sdrop m 1), parseDecode d)
+        let (maxTo, tx0) := parseLimitTok m
+        let (cap, dec) := (natOf (sdrop q 1), parseDecode d)
         let (alive, left, waited, groups) :=
           if fr = "t" then
-            let (s, g) := run mbap (State.init mbap cap maxTo dec padded) steps
+            let (s, g) := run mbap { State.init mbap cap maxTo dec padded with tx := tx0 } steps
             (s.alive, s.coins.length, s.waited, g)
           else
-            let (s, g) := run rtu (State.init rtu cap maxTo dec padded) steps
+            let (s, g) := run rtu { State.init rtu cap maxTo dec padded with tx := tx0 } steps
             (s.alive, s.coins.length, s.waited, g)
         let fin := if alive then "fin.alive" else "fin.aborted"
         (" | ".intercalate (printGroups [] (groups ++ [[]]) ++ [fin]), padded.length - left, waited)
@@ -255,12 +264,13 @@ def runClState (tok : List String) : String :=
           | c :: _ => parseCoins c
           | [] => []
         let padded := coins ++ List.replicate 64 true
-        let (cap, maxTo, dec) := (natOf (sdrop q 1), natOf (sdrop m 1), parseDecode d)
+        let (maxTo, tx0) := parseLimitTok m
+        let (cap, dec) := (natOf (sdrop q 1), parseDecode d)
         if fr = "t" then
-          let s := runState mbap (State.init mbap cap maxTo dec padded) steps
+          let s := runState mbap { State.init mbap cap maxTo dec padded with tx := tx0 } steps
           stateLine s (padded.length - s.coins.length) "t"
         else
-          let s := runState rtu (State.init rtu cap maxTo dec padded) steps
+          let s := runState rtu { State.init rtu cap maxTo dec padded with tx := tx0 } steps
           stateLine s (padded.length - s.coins.length) "r"
   | _ => "parse-error"
 
